@@ -1,0 +1,9 @@
+//go:build verif
+
+package addrquota
+
+// Verification export hook for property C34 (rate limiters) — /verif/harness/cmd/c34.
+// Compiled only with `-tags verif`.
+
+// VerifIPKey = ipKey.
+func VerifIPKey(ip string) string { return ipKey(ip) }
